@@ -74,7 +74,7 @@ func judgeC01(v *spec.View, out string, dom bool) (sig, what string) {
 			}
 			switch n.Type {
 			case html.ElementNode:
-				name := strings.ToLower(n.Data)
+				name := obs.ASCIILower(n.Data)
 				if (name == "script" || name == "style") && !v.Unsafe {
 					sig, what = "dom|"+name, "tree builder ("+ctx+" context) finds <"+name+"> element"
 					return
